@@ -347,7 +347,7 @@ pub fn check_visual_stream(c: &VisualStream) -> CaseResult {
     Ok(CaseOk::new(contested || (!claimants.is_empty() && res.len() > claimants.len())).label_if(contested, "contested_track").label_if(tie, "ties"))
 }
 
-fn visual_stream() -> impl Strategy<Value = VisualStream> {
+pub fn visual_stream() -> impl Strategy<Value = VisualStream> {
     (1u8..=5, 1u8..=5).prop_flat_map(|(nq, nt)| {
         (
             proptest::collection::vec((0..nq, 0..nt, prop_oneof![1 => Just(None), 2 => (0.0f32..1.0).prop_map(Some)], prop_oneof![2 => Just(None), 3 => (0.0f32..2.0).prop_map(Some)]), 0..30),
